@@ -3,7 +3,8 @@
 use crate::capi::{self, CVal, Notes};
 use crate::gen::{self, GenOpts};
 use crate::json::J;
-use crate::model::{self, MVal, Ty, Verdict};
+use crate::model::{self, MLabel, MVal, Ty, Verdict};
+use coset::iana::EnumI64;
 use crate::mon::{guard, scale, Check, Ctx, Phase, Tier};
 use crate::rcbor::{self, hex, Item, Style};
 use coset::{EncryptionContext, SignatureContext};
@@ -322,6 +323,186 @@ fn c02_case(ctx: &mut Ctx, ty: Ty, v: &MVal) {
     }
 }
 
+// ---------------------------------------------------------------------------------------------
+// phase 3: decoded parts handed to the builders of an enclosing structure
+
+/// the counter signatures of a decoded header, pushed through `HeaderBuilder::add_counter_signature`
+fn rehead(h: &coset::Header) -> coset::Header {
+    let mut b = coset::HeaderBuilder::new();
+    for s in &h.counter_signatures {
+        b = b.add_counter_signature(resig(s));
+    }
+    let mut out = h.clone();
+    out.counter_signatures = b.build().counter_signatures;
+    out
+}
+
+fn reprot(p: &coset::ProtectedHeader) -> coset::ProtectedHeader {
+    // the retained bytes stay; only the parsed view's nested signatures travel through the builder
+    coset::ProtectedHeader { original_data: p.original_data.clone(), header: rehead(&p.header) }
+}
+
+fn resig(s: &coset::CoseSignature) -> coset::CoseSignature {
+    let mut out = coset::CoseSignatureBuilder::new().unprotected(rehead(&s.unprotected)).signature(s.signature.clone()).build();
+    out.protected = reprot(&s.protected);
+    out
+}
+
+fn rercp(r: &coset::CoseRecipient) -> coset::CoseRecipient {
+    let mut b = coset::CoseRecipientBuilder::new().unprotected(rehead(&r.unprotected));
+    if let Some(c) = &r.ciphertext {
+        b = b.ciphertext(c.clone());
+    }
+    for x in &r.recipients {
+        b = b.add_recipient(rercp(x));
+    }
+    let mut out = b.build();
+    out.protected = reprot(&r.protected);
+    out
+}
+
+/// Re-assemble a decoded value: every nested signature, recipient, counter signature and
+/// supplementary-information structure is taken out and handed to the adder / setter of the
+/// enclosing structure's builder.  None if the type has nothing to re-assemble.
+fn reassemble(c: &CVal, v: &MVal) -> Option<CVal> {
+    Some(match c {
+        CVal::Header(h) => CVal::Header(rehead(h)),
+        CVal::Signature(s) => CVal::Signature(resig(s)),
+        CVal::Recipient(r) => CVal::Recipient(rercp(r)),
+        CVal::Sign(m) => {
+            let mut b = coset::CoseSignBuilder::new().unprotected(rehead(&m.unprotected));
+            if let Some(p) = &m.payload {
+                b = b.payload(p.clone());
+            }
+            for s in &m.signatures {
+                b = b.add_signature(resig(s));
+            }
+            let mut out = b.build();
+            out.protected = reprot(&m.protected);
+            CVal::Sign(out)
+        }
+        CVal::Sign1(m) => {
+            let mut out = m.clone();
+            out.unprotected = rehead(&m.unprotected);
+            out.protected = reprot(&m.protected);
+            CVal::Sign1(out)
+        }
+        CVal::Mac0(m) => {
+            let mut out = m.clone();
+            out.unprotected = rehead(&m.unprotected);
+            out.protected = reprot(&m.protected);
+            CVal::Mac0(out)
+        }
+        CVal::Encrypt0(m) => {
+            let mut out = m.clone();
+            out.unprotected = rehead(&m.unprotected);
+            out.protected = reprot(&m.protected);
+            CVal::Encrypt0(out)
+        }
+        CVal::Mac(m) => {
+            let mut b = coset::CoseMacBuilder::new().unprotected(rehead(&m.unprotected)).tag(m.tag.clone());
+            if let Some(p) = &m.payload {
+                b = b.payload(p.clone());
+            }
+            for r in &m.recipients {
+                b = b.add_recipient(rercp(r));
+            }
+            let mut out = b.build();
+            out.protected = reprot(&m.protected);
+            CVal::Mac(out)
+        }
+        CVal::Encrypt(m) => {
+            let mut b = coset::CoseEncryptBuilder::new().unprotected(rehead(&m.unprotected));
+            if let Some(p) = &m.ciphertext {
+                b = b.ciphertext(p.clone());
+            }
+            for r in &m.recipients {
+                b = b.add_recipient(rercp(r));
+            }
+            let mut out = b.build();
+            out.protected = reprot(&m.protected);
+            CVal::Encrypt(out)
+        }
+        CVal::Kdf(_) => {
+            // the context's fields are private: its parts are decoded on their own from the wire
+            // and handed to the context builder
+            let k = match v {
+                MVal::Kdf(k) => k,
+                _ => return None,
+            };
+            let alg = match &k.alg {
+                MLabel::Int(i) => coset::iana::Algorithm::from_i64(*i)?,
+                _ => return None,
+            };
+            let part = |ty: Ty, m: MVal| capi::from_slice(ty, &rcbor::det(&model::encode(&m))).ok();
+            let supp = match part(Ty::SuppPub, MVal::SuppPub(k.supp.clone()))? {
+                CVal::SuppPub(s) => s,
+                _ => return None,
+            };
+            let (u, w) = match (part(Ty::Party, MVal::Party(k.u.clone()))?, part(Ty::Party, MVal::Party(k.v.clone()))?) {
+                (CVal::Party(u), CVal::Party(w)) => (u, w),
+                _ => return None,
+            };
+            let mut b = coset::CoseKdfContextBuilder::new().algorithm(alg).party_u_info(u).party_v_info(w).supp_pub_info(supp);
+            for x in &k.priv_info {
+                b = b.add_supp_priv_info(x.clone());
+            }
+            CVal::Kdf(b.build())
+        }
+        _ => return None,
+    })
+}
+
+fn reassembly_case(ctx: &mut Ctx, ty: Ty, v: &MVal) {
+    let bytes = rcbor::encode(&model::encode(v), &mut Style::random(ctx.rng.next()));
+    let expected = model::prot_positions(v);
+    let c = match capi::from_slice(ty, &bytes) {
+        Ok(c) => c,
+        Err(_) => return,
+    };
+    let (c2, v2) = (c.clone(), v.clone());
+    let re = match guard(move || reassemble(&c2, &v2)) {
+        Ok(Some(x)) => x,
+        Ok(None) => {
+            ctx.count("reassembly-not-applicable");
+            return;
+        }
+        Err(p) => {
+            ctx.violation(&format!("C02/reassembly-panicked/{}", ty.name()), format!("handing decoded parts to the builders panicked at {}", p.site()), J::obj(vec![("type", J::Str(ty.name())), ("hex", J::Str(hex(&bytes)))]));
+            return;
+        }
+    };
+    ctx.eval();
+    ctx.count("reassembled");
+    // (a) the re-assembled value still holds the received bytes at every position
+    if let Some(got) = positions_of(&re) {
+        if got != expected {
+            let diff = expected.iter().zip(got.iter()).find(|(a, b)| a != b).map(|(a, b)| format!("{}: wire {:?} after re-assembly {:?}", a.0, a.1.as_ref().map(|x| hex(x)), b.1.as_ref().map(|x| hex(x)))).unwrap_or_else(|| format!("{} positions expected, {} found", expected.len(), got.len()));
+            ctx.violation(&format!("C02/reassembled-retained-bytes/{}", ty.name()), format!("a decoded part handed to the enclosing builder no longer holds its received protected bytes: {}", diff), J::obj(vec![("type", J::Str(ty.name())), ("hex", J::Str(hex(&bytes)))]));
+            return;
+        }
+    }
+    // (b) and writes them
+    ctx.eval();
+    match capi::to_vec(re) {
+        Ok(b2) => match rcbor::decode(&b2).map(|x| model::decode(ty, &x.normalize())) {
+            Ok(Verdict::Accept(m2)) => {
+                let got = model::prot_positions(&m2);
+                if got != expected {
+                    let diff = expected.iter().zip(got.iter()).find(|(a, b)| a != b).map(|(a, b)| format!("{}: wire {:?} written {:?}", a.0, a.1.as_ref().map(|x| hex(x)), b.1.as_ref().map(|x| hex(x)))).unwrap_or_default();
+                    ctx.violation(&format!("C02/reassembled-reencoded-bytes/{}", ty.name()), format!("a decoded part handed to the enclosing builder is written with other protected bytes than it was received with: {}", diff), J::obj(vec![("type", J::Str(ty.name())), ("input", J::Str(hex(&bytes))), ("output", J::Str(hex(&b2)))]));
+                }
+                for (e, _) in expected.iter().filter(|(p, _)| p.contains("signatures[") || p.contains("recipients[") || p.contains("csig[") || p.contains("supp")) {
+                    let _ = e;
+                    ctx.count("reassembled-nested-positions");
+                }
+            }
+            _ => ctx.violation(&format!("C02/reassembled-unreadable/{}", ty.name()), "the encoding of the re-assembled value is not a well-formed value of the type".into(), J::obj(vec![("input", J::Str(hex(&bytes))), ("output", J::Str(hex(&b2)))])),
+        },
+        Err(k) => ctx.violation(&format!("C02/reassembled-encode-failed/{}", ty.name()), format!("to_vec of the re-assembled value failed with {}", k.name()), J::obj(vec![("input", J::Str(hex(&bytes)))])),
+    }
+}
+
 impl Check for C02 {
     fn id(&self) -> &'static str {
         "C02"
@@ -332,6 +513,7 @@ impl Check for C02 {
             Phase { name: "carriers of every type with independently styled protected headers at every position (nesting <= 3)", cases: scale(if q { 96000 } else { 500000 }, b), exhaustive: false },
             Phase { name: "the five empty-header forms (40, 41a0, 42bfff, 42b800, built-canonical) x every position class", cases: 12 * 5, exhaustive: true },
             Phase { name: "the same header content at every position of a carrier, each position in its own encoding (equal views, different bytes)", cases: scale(if q { 4000 } else { 100000 }, b), exhaustive: false },
+            Phase { name: "decoded signatures, recipients, counter signatures and supplementary information handed to the adders / setters of the enclosing structure's builder, then encoded", cases: scale(if q { 12000 } else { 100000 }, b), exhaustive: false },
         ]
     }
     fn run_case(&self, ctx: &mut Ctx, phase: usize, idx: u64) {
@@ -342,6 +524,12 @@ impl Check for C02 {
                 let v = gen::gen_mval(&mut ctx.rng, ty, &o);
                 c02_case(ctx, ty, &v);
                 ctx.sample(|| J::obj(vec![("type", J::Str(ty.name())), ("positions", J::Arr(model::prot_positions(&v).iter().take(6).map(|(p, b)| J::Str(format!("{} = {}", p, b.as_ref().map(|x| hex(x)).unwrap_or_default()))).collect())), ("outcome", J::s("retained, re-emitted and placed into structures bit for bit"))]));
+            }
+            3 => {
+                const RE: [Ty; 10] = [Ty::Sign, Ty::Mac, Ty::Encrypt, Ty::Recipient, Ty::Kdf, Ty::Header, Ty::Signature, Ty::Sign1, Ty::Mac0, Ty::Encrypt0];
+                let ty = RE[(idx % 10) as usize];
+                let v = gen::gen_mval(&mut ctx.rng, ty, &o);
+                reassembly_case(ctx, ty, &v);
             }
             2 => {
                 let mut v = gen::gen_mval(&mut ctx.rng, ty, &o);
@@ -366,7 +554,7 @@ impl Check for C02 {
         }
     }
     fn rule(&self) -> String {
-        "carriers: the six message types, COSE_Signature, COSE_recipient (nesting <= 3), headers with counter-signatures (in protected and unprotected headers), SuppPubInfo and COSE_KDF_Context; every protected header position is given an independently styled encoding of its content (head widths, indefinite strings/maps/arrays, bignum integers, shuffled typed entries, the empty forms 40 / 41a0 / 42bfff / 42b800 / 43b90000), and the carrier's own framing is styled too. Oracle, by a path-indexed walk: original_data equals the planted bytes at every position (also after clone); to_vec / to_tagged_vec write the same bytes at every position (read back by the independent parser); tbs/verify/MAC/decrypt helpers and sig_structure_data(CounterSignature) carry them in slots 1 (and 2); the parsed view equals the header content for every encoding. Non-trivial = distinct (position, bytes) whose bytes differ from the deterministic encoding of their header.".into()
+        "carriers: the six message types, COSE_Signature, COSE_recipient (nesting <= 3), headers with counter-signatures (in protected and unprotected headers), SuppPubInfo and COSE_KDF_Context; every protected header position is given an independently styled encoding of its content (head widths, indefinite strings/maps/arrays, bignum integers, shuffled typed entries, the empty forms 40 / 41a0 / 42bfff / 42b800 / 43b90000), and the carrier's own framing is styled too. Oracle, by a path-indexed walk: original_data equals the planted bytes at every position (also after clone); to_vec / to_tagged_vec write the same bytes at every position (read back by the independent parser); tbs/verify/MAC/decrypt helpers and sig_structure_data(CounterSignature) carry them in slots 1 (and 2); the parsed view equals the header content for every encoding. Re-assembly: the nested signatures, recipients, counter signatures and SuppPubInfo of a decoded value are handed to add_signature / add_recipient / add_counter_signature / supp_pub_info of a fresh builder of the enclosing structure; the result must hold and write the received bytes at every position. Non-trivial = distinct (position, bytes) whose bytes differ from the deterministic encoding of their header.".into()
     }
     fn assumptions(&self) -> Vec<String> {
         super::std_assumptions()
@@ -376,6 +564,9 @@ impl Check for C02 {
             if m.counters.get(&format!("position-class:{}", c)).copied().unwrap_or(0) < 200 {
                 return Err(format!("position class {} seen fewer than 200 times", c));
             }
+        }
+        if m.counters.get("reassembled-nested-positions").copied().unwrap_or(0) < 1000 {
+            return Err("fewer than 1000 nested positions went through a builder re-assembly".into());
         }
         if m.counters.get("positions-noncanonical").copied().unwrap_or(0) < 1000 {
             return Err("fewer than 1000 non-canonical positions".into());
